@@ -7,7 +7,7 @@
 #            FunctionAction, every composite and mode, action timeouts under the virtual clock), drives the loop pass by pass,
 #            applies the control script and records state()/result() of every node + hook/final/root callbacks after every
 #            pass; spec/Flow/Trace_ActionTree.tla accepts iff the general model (deliveries in any later pass, FIFO) explains it.
-#            Scripts: TLC-enumerated (Gen_ActionTree, BFS over a curated program set; -simulate over the sampled sets) and
+#            Scripts: TLC-enumerated (Gen_ActionTree, BFS over the witness programs and a seeded sample of the model-checked ones) and
 #            seeded random deep programs/scripts (incl. calls back to back and calls placed in the middle of a batch).
 import json
 import os
@@ -112,7 +112,7 @@ def validate(ctx, exe, jobs, tag, what):
 
 def jobs_from_behaviours(progs, behs, extra=6):
     jobs = []
-    for b in behs:
+    for b in sorted(behs, key=lambda x: (x["p"], x["s"])):     # TLC's workers print in any order
         s = list(b["s"])
         while len(s) > 1 and s[-1] == "-":
             s.pop()
@@ -191,13 +191,13 @@ def run_checked(ctx):
     d1 = P.enum_depth1(P.LEAVES_FULL, 3)                      # every depth-1 tree, <= 3 leaves, 7 leaf variants
     d1b = P.enum_depth1(P.LEAVES_SMALL, 4)                    # depth-1 trees with 4 leaves over 4 leaf variants
     d1b = [t for t in d1b if P.nleaves(t) == 4]
-    d2 = P.sample_depth2(rnd, 170 if quick else 5000)
+    d2 = P.sample_depth2(rnd, 170 if quick else 3000)
     if quick:
         s1 = rnd.sample(d1, 190) + rnd.sample(d1b, 30)
         tmo = P.with_timeouts(rnd.sample(d1, 50) + rnd.sample(d2, 30), rnd)
         mc_sets = [("d1", s1 + tmo), ("d2", d2)]
     else:
-        tmo = P.with_timeouts(rnd.sample(d1, 600) + rnd.sample(d2, 600), rnd)
+        tmo = P.with_timeouts(rnd.sample(d1, 500) + rnd.sample(d2, 400), rnd)
         mc_sets = [("d1", d1), ("d1b", d1b), ("tmo", tmo), ("d2", d2)]
         ctx.exhaustive = True
     nprog = 0
@@ -225,19 +225,21 @@ def run_checked(ctx):
     if ok:
         ctx.traces_ok -= n
         ctx.replays_ok += n
-    sim_trees = rnd.sample(d1, 150) + d2[:150] + tmo[:60]
-    ps = write_progs(ctx, "sim.json", sim_trees)
-    behs = ctx.tlc_gen("Flow", "Gen_ActionTree.tla", "Gen_sim.cfg", env={"PROGS": ps}, simulate=(10000000, 8),
-                       timeout=10 if quick else 90, workers=4, limit=700 if quick else 15000)
-    progs_s = [P.flatten(t) for t in sim_trees]
-    ok, n, tr = validate(ctx, exe, jobs_from_behaviours(progs_s, behs), "gen_sim", "random model scripts (<=4 calls, 7 passes) on sampled programs")
+    # the same enumeration for a seeded sample of the model-checked programs (BFS, so the run is deterministic for a seed)
+    k = 10 if quick else 120
+    smp_trees = rnd.sample(d1, k) + rnd.sample(d2, k) + rnd.sample(tmo, k // 2)
+    ps = write_progs(ctx, "smp.json", smp_trees)
+    behs = ctx.tlc_gen("Flow", "Gen_ActionTree.tla", "Gen_ActionTree.cfg", env={"PROGS": ps})
+    progs_s = [P.flatten(t) for t in smp_trees]
+    ok, n, tr = validate(ctx, exe, jobs_from_behaviours(progs_s, behs), "gen_smp",
+                         "all scripts (<=3 effective calls, 4 passes) of %d sampled programs" % len(smp_trees))
     if ok:
         ctx.traces_ok -= n
         ctx.replays_ok += n
 
     # ---- 3. code -> spec: seeded random deep programs and scripts -------------------------------------------------------
     jobs = []
-    for i in range(900 if quick else 20000):
+    for i in range(1200 if quick else 20000):
         dp = rnd.choice((1, 2, 3, 3))
         t = P.random_tree(rnd, dp)
         while P.nleaves(t) > 6:
